@@ -417,3 +417,72 @@ func ruleWKTTrimFirst(c *Ctx) {
 	}
 	c.R.Floor("T4b-trim-first", n, 14)
 }
+
+// ruleWKTCapacityHint (T4c): a slice whose capacity is computed from strings.Count(X, ",") is filled by splitting
+// the same X.  The five coordinate-list parsers are siblings (count the commas of the list, allocate, split the
+// list); counting the commas of an enclosing text instead makes every inner list allocate for the whole outer
+// one - quadratic allocation on a hostile sentence.
+func ruleWKTCapacityHint(c *Ctx) {
+	p := c.P
+	c.R.Rule("T4c: in encoding/wkt, a capacity computed from strings.Count(X, \",\") belongs to a slice filled by splitOnComma(X, ...) on the same X")
+	n := 0
+	for _, fn := range p.FuncsIn(orbPath + "/encoding/wkt") {
+		var counts []*ssa.Call
+		var splits []*ssa.Call
+		usedAsCap := map[*ssa.Call]bool{}
+		for _, blk := range fn.Blocks {
+			for _, in := range blk.Instrs {
+				switch x := in.(type) {
+				case *ssa.Call:
+					callee := x.Call.StaticCallee()
+					if callee == nil || len(x.Call.Args) == 0 {
+						continue
+					}
+					if callee.Pkg != nil && callee.Pkg.Pkg.Path() == "strings" && callee.Name() == "Count" {
+						counts = append(counts, x)
+					}
+					if callee.Pkg == fn.Pkg && callee.Name() == "splitOnComma" {
+						splits = append(splits, x)
+					}
+				case *ssa.MakeSlice:
+					// the capacity expression: count + 1 (or count itself)
+					var from func(v ssa.Value, depth int)
+					from = func(v ssa.Value, depth int) {
+						if depth > 3 {
+							return
+						}
+						switch y := v.(type) {
+						case *ssa.Call:
+							usedAsCap[y] = true
+						case *ssa.BinOp:
+							from(y.X, depth+1)
+							from(y.Y, depth+1)
+						case *ssa.Convert:
+							from(y.X, depth+1)
+						}
+					}
+					from(x.Cap, 0)
+				}
+			}
+		}
+		k := 0
+		for _, cnt := range counts {
+			if !usedAsCap[cnt] {
+				continue
+			}
+			n++
+			k++
+			cons := fmt.Sprintf("%s#Count#%d", ShortKey(FuncKey(fn)), k)
+			if len(splits) != 1 {
+				c.R.Add("T4c-capacity-hint", cons, Unconfirmed, p.InstrPos(cnt), fmt.Sprintf("%d splitOnComma calls in this function: the hint is not matched to one", len(splits)))
+				continue
+			}
+			if splits[0].Call.Args[0] == cnt.Call.Args[0] {
+				c.R.OK("T4c-capacity-hint", cons, p.InstrPos(cnt), "the commas counted are those of the text that is split")
+			} else {
+				c.R.Bad("T4c-capacity-hint", cons, p.InstrPos(cnt), "the capacity counts the commas of "+operandText(cnt.Call.Args[0])+" but the slice is filled from "+operandText(splits[0].Call.Args[0])+": every inner list allocates for the enclosing text (quadratic allocation)")
+			}
+		}
+	}
+	c.R.Floor("T4c-capacity-hint", n, 1) // five sites today; a shared helper would leave one
+}
